@@ -521,23 +521,23 @@ def _check_traj(L, label, vkind, tr, st, records, frames_independent=True):
     ks = md.kabsch_sander(tr)
     st["trajectories"] += 1
     if full.shape != (F, n) or simp.shape != (F, n):
-        viol("e2e|shape|%s" % vkind, "shape %s / %s, expected %s" % (full.shape, simp.shape, (F, n)))
+        viol("e2e|shape", "shape %s / %s, expected %s" % (full.shape, simp.shape, (F, n)))
         return
     # 'NA' exactly on incomplete residues
     na = (full == "NA")
     if not np.array_equal(na, np.broadcast_to(~complete, (F, n))) or not np.array_equal(simp == "NA", na):
-        viol("e2e|NA-mask|%s" % vkind, "'NA' positions differ from the residues lacking N/CA/C/O: frame/res %s"
+        viol("e2e|NA-mask", "'NA' positions differ from the residues lacking N/CA/C/O: frame/res %s"
              % (np.argwhere(na != ~complete[None, :])[:5].tolist()))
     # simplified image
     img = np.array([["NA" if c == "NA" else R.SIMPLIFIED.get(str(c), "?") for c in row] for row in full],
                    dtype="U2").reshape(F, n)
     if not np.array_equal(img, simp):
         w = np.argwhere(img != simp)[:5]
-        viol("e2e|simplified-image|%s" % vkind, "simplified != image of full at %s: full %s simp %s" % (
+        viol("e2e|simplified-image", "simplified != image of full at %s: full %s simp %s" % (
             w.tolist(), [full[tuple(x)] for x in w], [simp[tuple(x)] for x in w]))
     alphabet = set(np.unique(full).tolist())
     if not alphabet <= set("HBEGITS ") | {"NA"}:
-        viol("e2e|alphabet|%s" % vkind, "codes %s" % sorted(alphabet))
+        viol("e2e|alphabet", "codes %s" % sorted(alphabet))
     missing = frozenset(int(i) for i in np.nonzero(~complete)[0])
     xyz = np.ascontiguousarray(tr.xyz, dtype=np.float32)
     cl = chain.tolist()
@@ -548,14 +548,14 @@ def _check_traj(L, label, vkind, tr, st, records, frames_independent=True):
         st["residues"] += n
         st["hbonds"] += len(bonds)
         if any(d in missing or a in missing for d, a in bonds):
-            viol("e2e|incomplete-residue-in-hbond|%s" % vkind, "kabsch_sander reports a bond of an incomplete residue")
+            viol("e2e|incomplete-residue-in-hbond", "kabsch_sander reports a bond of an incomplete residue")
         # the pattern dssp() uses == the pattern kabsch_sander reports
         hbo = np.empty((n, 2), dtype=np.int32)
         heo = np.empty((n, 2), dtype=np.float32)
         L.dsspseam_hbonds(_p(xyz[f]), _p(nco), _p(ca), _p(pro), xyz.shape[1], n, _p(hbo), _p(heo))
         inner = sorted((int(d), int(a)) for d in range(n) for a in hbo[d] if a >= 0)
         if inner != bonds:
-            viol("e2e|pattern-inside-dssp-differs-from-kabsch_sander|%s" % vkind,
+            viol("e2e|pattern-inside-dssp-differs-from-kabsch_sander",
                  "bonds only in dssp(): %s, only in kabsch_sander: %s" % (sorted(set(inner) - set(bonds))[:5],
                                                                           sorted(set(bonds) - set(inner))[:5]))
         cax = xyz[f][caz].astype(np.float64)
@@ -590,8 +590,7 @@ def _check_traj(L, label, vkind, tr, st, records, frames_independent=True):
             elif kind:
                 st["alt_used"][kind] = st["alt_used"].get(kind, 0) + 1
             else:
-                sig = "e2e|full-vs-reference|exp=%s|got=%s|%s" % (_letters(exp[i] for i in bad),
-                                                                    _letters(got[i] for i in bad), vkind)
+                sig = "e2e|full-vs-reference|exp=%s|got=%s" % (_letters(exp[i] for i in bad), _letters(got[i] for i in bad))
                 lo, hi = max(0, bad[0] - 6), min(n, bad[0] + 7)
                 viol(sig, "frame %d residues %s: compute_dssp %r, reference %r (window %d..%d)" % (
                     f, bad[:8], "".join(c if c != "NA" else "*" for c in got[lo:hi]), exp[lo:hi], lo, hi - 1))
@@ -605,7 +604,7 @@ def _check_traj(L, label, vkind, tr, st, records, frames_independent=True):
         for f in sorted(set([0, F // 2, F - 1])):
             one = md.compute_dssp(tr[f], simplified=False)
             if not np.array_equal(one[0], full[f]):
-                viol("e2e|frame-independence|%s" % vkind, "compute_dssp(traj)[%d] != compute_dssp(traj[%d])" % (f, f))
+                viol("e2e|frame-independence", "compute_dssp(traj)[%d] != compute_dssp(traj[%d])" % (f, f))
     # dssp() on independently prepared arrays == compute_dssp
     sec = np.zeros(F * n, dtype=np.uint8)
     L.dsspseam_dssp(_p(xyz), _p(nco), _p(ca), _p(pro), _p(chain), F, xyz.shape[1], n, _p(sec))
@@ -613,7 +612,7 @@ def _check_traj(L, label, vkind, tr, st, records, frames_independent=True):
     want = np.where(complete[None, :], raw, WILD)
     have = np.array([[ord(c) if c != "NA" else WILD for c in row] for row in full], dtype=np.uint8).reshape(F, n)
     if not np.array_equal(want, have):
-        viol("e2e|wrapper-vs-dssp()|%s" % vkind, "compute_dssp differs from dssp() called on independently prepared arrays")
+        viol("e2e|wrapper-vs-dssp()", "compute_dssp differs from dssp() called on independently prepared arrays")
 
 
 def _e2e_file(item):
